@@ -372,23 +372,12 @@ def run(chk):
                 chk.ob("(c) reader layout", "c|field|%s" % f, ok, "%s" % (g[1] if g else CR),
                        "reader extracts %s from %s after shifting by %s; writer puts it above %s" % (f, g[0][0] if g and g[0] else "?", g[0][1] if g and g[0] else "?", exp[1]))
     # effective_tld_plus_one guards
-    et = p.method("public_suffix::ListProvider", "effective_tld_plus_one", trait="public_suffix::EffectiveTLDProvider")
-    if chk.require("(c) reader layout", "c|effective_tld_plus_one", et, CR, "effective_tld_plus_one not found"):
+    from .common import etld_rejects_empty_labels
+    found, ok, et, cb, wit = etld_rejects_empty_labels(p)
+    if chk.require("(c) reader layout", "c|effective_tld_plus_one", found, CR, "effective_tld_plus_one not found"):
         chk.touched(et)
-        T = flow.Terms(p, et)
-        calls = names.calls_to(et, "ListProvider::public_suffix")
-        if chk.require("(c) reader layout", "c|etld|lookup", len(calls) == 1, where(et), "expected one public_suffix call"):
-            cb = calls[0][0]
-            conds = flow.conditions(p, et, cb, T)
-            pats = set()
-            for sb, labs, t in conds:
-                if t[0] == "call" and flow.lab_false(labs):
-                    for a in t[2]:
-                        if a and a[0] == "const":
-                            pats.add((t[1].rsplit("::", 1)[-1], a[1]))
-            need = {("starts_with", 46), ("ends_with", 46), ("contains", "..")}
-            chk.ob("(c) reader layout", "c|etld|empty-labels-rejected-before-lookup", need <= pats, where(et, cb),
-                   "lookup is conditioned on the false edges of %s" % sorted(map(str, pats)))
+        if chk.require("(c) reader layout", "c|etld|lookup", cb is not None, where(et), "expected one public_suffix call"):
+            chk.ob("(c) reader layout", "c|etld|empty-labels-rejected-before-lookup", ok, where(et, cb), wit)
     walk_step_rules(chk, p, ps)
     chk.floor("(d)", 9)
     chk.floor("(a)", 3)
